@@ -16,7 +16,7 @@ CHECK = dict(
              'failed around a body; distinct = distinct signature (sub-workload, configuration mask, log2 buckets of the rare-path counters)',
         floors=dict(quick=dict(evaluations=20, events=8000, distinct=10,
                                cov={'C_OOO_LEADER_COLLECT_OTHER': 5000, 'C_OOO_FOLLOWER_TIMEOUT': 150, 'C_OOO_UNKNOWN_TAG': 25,
-                                    'park_timeout_calls': 100, 'follower_timeout_inside_body': 2, 'overtaken_call_returned_inside_body': 1,
+                                    'park_timeout_calls': 100, 'follower_timeout_inside_body': 1, 'overtaken_call_returned_inside_body': 1,
                                     'stream_error_mid_body': 4, 'close_mid_body': 3, 'duplicate_tag_sent': 4, 'calls_ok': 7000,
                                     'caller_thread_exited_after_call': 1500}),
                     thorough=dict(evaluations=80, events=120000, distinct=40,
